@@ -19,6 +19,7 @@ RULE = ('(a) for every accepted grammar of a profile biased to `||` branches and
         'agrees, one offers nothing iff the other does, the || candidates are a subset of the | candidates and '
         'contain every | candidate whose branch index is minimal. non-trivial = (a) automaton with >= 1 state that '
         'has two items sharing a first character or kind, (b) command line with >= 1 complete word; distinct by hash')
+RULE += ' ' + '(c) for every grammar of the profile (incl. definitions that reference others only below ||, [], ... or inside a word, and || whose earlier branch begins with a within-word expression) the compiled automaton with every || index erased must accept the same language as the compiled automaton of the | spelling (canonical minimal forms compared).'
 ASSUMPTIONS = ['(a) ignores paths through commands and placeholders inside nested automata, so it under-approximates',
                'branch indices for (b) come from cgv/refsem.py']
 MIN_EVALS = {'quick': 1500, 'thorough': 15000}
